@@ -9,7 +9,8 @@ ChaikinMoneyFlow_Step(cfg, st, c, P, V) ==
     LET n == cfg.size  w == WPush(st.w, c)
         num == FxSum([i \in 1..n |-> FxMul(CLV(w[i]), w[i].v)])
         den == FxSum([i \in 1..n |-> w[i].v])
-    IN  [st |-> [w |-> w], vals |-> <<Qx(num, den, FxMulInt(V, n), FxMulInt(V, n))>>]
+        cond == FxSum([i \in 1..n |-> CLVCond(w[i])])        \* conditioning of the clv terms (narrow candles)
+    IN  [st |-> [w |-> w], vals |-> <<Qx(num, den, FxAdd(FxMulInt(V, n), cond), FxMulInt(V, n))>>]
 ChaikinMoneyFlow_SigInit(cfg, c) == [x |-> 0]
 ChaikinMoneyFlow_Sig(cfg, sg, c, v) == {[sg |-> [x |-> CrossLast(v[1], ZeroV)], sigs |-> <<{Act(CrossOut(sg.x, v[1], ZeroV))}>>]}
 =============================================================================
